@@ -146,6 +146,15 @@ class Worker(object):
             if self.laststmt.get(key) == stmt:
                 return self.ltrace          # a further line of the same statement
             self.laststmt[key] = stmt
+            if label == 'X1072':
+                # expire() begins: is the instance still under construction (its _init has not run: no `id` yet)?
+                try:
+                    inst = frame.f_locals.get('self')
+                    if inst is not None and 'id' not in inst.__dict__ and self.tid not in self.run.uninit_uses:
+                        self.run.uninit_uses.append(self.tid)
+                    inst = None
+                except Exception:
+                    pass
             if label == 'X1078':
                 # about to set the expired flag: was the instance expired (and so purged) already?
                 try:
@@ -213,6 +222,8 @@ class Worker(object):
                 t, j = op[1]
                 r = run.workers[t].results[j]
                 if r is not None and r[0] == 'obj':
+                    if 'id' not in r[1].__dict__ and self.tid not in run.uninit_uses:
+                        run.uninit_uses.append(self.tid)
                     if r[1].sqlmeta.expired and [self.tid, int(r[1].id)] not in run.stale_ops:
                         run.stale_ops.append([self.tid, int(r[1].id)])
                     r[1].expire()
@@ -250,6 +261,7 @@ class Run(object):
         self.locks = []
         self.stale_expires = []    # [thread, row]: expire() ran on an instance that was expired already
         self.stale_ops = []
+        self.uninit_uses = []      # threads that called expire() on an instance whose constructor had not returned
         self.aborting = False
         self.harness_error = None
         self.back = _th.Semaphore(0)
@@ -263,6 +275,21 @@ class Run(object):
         self.cls.createTable()
         for i in case.get('rows', []):
             self.conn.query('INSERT INTO %s (id, a) VALUES (%d, 0)' % (self.cls.sqlmeta.table, i))
+        # the statements the threads send to the database, in the order they happen: [thread, kind, id]
+        self.sql_log = []
+        _orig = self.conn._executeRetry
+        _tab = self.cls.sqlmeta.table
+
+        def _logged(rawconn, cursor, query, _orig=_orig, _tab=_tab):
+            w = getattr(_local, 'worker', None)
+            if w is not None:
+                q = query.strip()
+                import re as _re
+                m = _re.search(r'\(\(%s\.id\) = \((-?\d+)\)\)' % _tab, q)
+                kind = q.split(None, 1)[0].upper()
+                self.sql_log.append([w.tid, kind, int(m.group(1)) if m else None, len(self.executed)])
+            return _orig(rawconn, cursor, query)
+        self.conn._executeRetry = _logged
         self.workers = [Worker(self, t, p) for t, p in enumerate(case['progs'])]
         self.trace = []           # [tid, label-after, state or None]
         self.executed = []        # thread id per consumed step
@@ -501,6 +528,7 @@ class Run(object):
                'results': results, 'strong': strong, 'weak': weak, 'reach': reach, 'final': final,
                'unfinished': unfinished if self.verdict != 'ok' else [], 'blocked': blocked if self.verdict != 'ok' else [],
                'wlocks_held': wlocks, 'npre': getattr(self, 'npre', 0),
+               'uninit_uses': self.uninit_uses, 'sql': self.sql_log,
                'stale_expires': self.stale_expires + [x for x in self.stale_ops if x not in self.stale_expires],
                'segs': getattr(self, 'segs', [])}
         if self.harness_error:
